@@ -916,3 +916,51 @@ package mocrelay
 //@     lwrites contents(smsgCh)
 //@     invariant !isnil(smsgCh) && fresh(smsgCh) && !chanclosed(smsgCh) && chancap(smsgCh) == len(evs) + 1 && chanhead(smsgCh) == 0
 //@     invariant len(chanbuf(smsgCh)) == i && forall(j, 0, i, isEventMsgFor(chanbuf(smsgCh)[j], msg.SubscriptionID, evs[j]))
+
+// ---------------------------------------------------------------------------------------------
+// C17: middleware plumbing - what a base forwards / replies reaches downstream / the client unchanged and in order
+
+//@ func sendClientMsgCtx
+//@   serves C17
+//@   writes contents(ch), ghost(dropped, ch)
+//@   ensures sent ==> (appendedC(chanbuf(ch), old(chanbuf(ch)), msg) && !isnil(msg) && refof(msg) != 0)
+//@   ensures !sent ==> chanbuf(ch) == old(chanbuf(ch))
+//@   promises sent ==> g(dropped, ch) == old(g(dropped, ch))
+//@   promises !sent ==> g(dropped, ch) == old(g(dropped, ch)) + 1
+//@   ensures chanhead(ch) == old(chanhead(ch)) && chanclosed(ch) == old(chanclosed(ch))
+
+//@ iface (SimpleMiddlewareBase).ServeNostrClientMsg
+//@   params(b, ctx, msg)
+//@   ensures (result2 == nil && !isnil(result0)) ==> (fresh(result0) && chanhead(result0) == 0)
+//@   ensures (result2 == nil && !isnil(result1)) ==> (fresh(result1) && chanhead(result1) == 0)
+//@   ensures (!isnil(result0) && !isnil(result1)) ==> refof(result0) != refof(result1)
+//@ iface (SimpleMiddlewareBase).ServeNostrServerMsg
+//@   params(b, ctx, msg)
+//@   ensures (result1 == nil && !isnil(result0)) ==> (fresh(result0) && chanhead(result0) == 0)
+
+//@ func simpleMiddlewareHandleRecv
+//@   serves C17
+//@   requires refof(send) != refof(rCh)
+//@   loop 2
+//@     lwrites contents(send), contents(smsgCh), ghost(dropped, send)
+//@     invariant !isnil(smsgCh) && fresh(smsgCh) && chanbuf(smsgCh) == lold(chanbuf(smsgCh)) && lold(chanhead(smsgCh)) <= chanhead(smsgCh) && chanhead(smsgCh) <= len(chanbuf(smsgCh))
+//@     invariant g(dropped, send) >= lold(g(dropped, send))
+//@     invariant[C17] g(dropped, send) == lold(g(dropped, send)) ==> extendsBy(chanbuf(send), lold(chanbuf(send)), chanbuf(smsgCh), lold(chanhead(smsgCh)), chanhead(smsgCh))
+//@   loop 3
+//@     lwrites contents(rCh), contents(cmsgCh), ghost(dropped, rCh)
+//@     invariant !isnil(cmsgCh)
+//@     invariant fresh(cmsgCh)
+//@     invariant chanbuf(cmsgCh) == lold(chanbuf(cmsgCh))
+//@     invariant lold(chanhead(cmsgCh)) <= chanhead(cmsgCh)
+//@     invariant chanhead(cmsgCh) <= len(chanbuf(cmsgCh))
+//@     invariant g(dropped, rCh) >= lold(g(dropped, rCh))
+//@     invariant[C17] g(dropped, rCh) > lold(g(dropped, rCh)) || extendsByC(chanbuf(rCh), lold(chanbuf(rCh)), chanbuf(cmsgCh), lold(chanhead(cmsgCh)), chanhead(cmsgCh))
+
+//@ func simpleMiddlewareHandleSend
+//@   serves C17
+//@   requires refof(send) != refof(sCh)
+//@   loop 2
+//@     lwrites contents(send), contents(smsgCh), ghost(dropped, send)
+//@     invariant !isnil(smsgCh) && fresh(smsgCh) && chanbuf(smsgCh) == lold(chanbuf(smsgCh)) && lold(chanhead(smsgCh)) <= chanhead(smsgCh) && chanhead(smsgCh) <= len(chanbuf(smsgCh))
+//@     invariant g(dropped, send) >= lold(g(dropped, send))
+//@     invariant[C17] g(dropped, send) == lold(g(dropped, send)) ==> extendsBy(chanbuf(send), lold(chanbuf(send)), chanbuf(smsgCh), lold(chanhead(smsgCh)), chanhead(smsgCh))
